@@ -41,6 +41,9 @@ type LSXG struct {
 	// ForeignMI: the publisher protects the payload with the OTHER format version's
 	// integrity scheme, consistently (encoding, digest header, Content-Encoding).
 	ForeignMI bool
+	// EmptyValued: response header names present in the caller's map with no value
+	// at all (nil slice for even positions, empty slice for odd ones).
+	EmptyValued []string
 	// SignerObj, when set, is the Signer object to use (a publisher reusing one
 	// Signer for several exchanges); otherwise a fresh one is built per call.
 	SignerObj *signedexchange.Signer
@@ -92,7 +95,7 @@ func DrawSXG(c *core.Ctx, label string, uniq int) *LSXG {
 			l.ReqHeaders = append(l.ReqHeaders, HV{c.PickStr(label+".reqname", "Accept", "accept-language", "X-Req"), visible(c, label+".reqval", 1, 12)})
 		}
 	}
-	l.Status = c.PickInt(label+".status", 200, 200, 203, 204, 206, 301, 404, 410)
+	l.Status = c.PickInt(label+".status", 200, 200, 203, 204, 206, 300, 301, 404, 405, 410, 414, 501)
 	l.RespHeaders = []HV{{c.PickStr(label+".ctname", "Content-Type", "content-type", "CONTENT-TYPE"), c.PickStr(label+".ct", "text/html", "application/octet-stream; charset=x")}}
 	n := c.Int(label+".nhdr", 0, 3)
 	perm := c.Perm(label+".hdrperm", len(harmless))
@@ -210,7 +213,7 @@ func (l *LSXG) Signer() *signedexchange.Signer {
 	return &signedexchange.Signer{
 		Date:        time.Unix(l.Date, 0),
 		Expires:     time.Unix(l.Expires, 0),
-		Certs:       []*x509.Certificate{l.Leaf.Cert(), fixtures.CA()},
+		Certs:       []*x509.Certificate{l.Leaf.Cert(), l.Leaf.Issuer()},
 		CertUrl:     cu,
 		ValidityUrl: vu,
 		PrivKey:     l.Leaf.Key,
@@ -227,6 +230,13 @@ func (l *LSXG) Unsigned() *signedexchange.Exchange {
 	rs := mkHeader(l.RespHeaders, l.DirectMap)
 	for i, k := range []string{"x-uniq", "X-UNIQ", "x-uniQ"}[:l.Collide] {
 		rs[k] = []string{fmt.Sprintf("collide-%d", i)}
+	}
+	for i, k := range l.EmptyValued {
+		if i%2 == 0 {
+			rs[k] = nil
+		} else {
+			rs[k] = []string{}
+		}
 	}
 	return signedexchange.NewExchange(l.Ver(), l.URL, l.Method, rq, l.Status, rs, append([]byte(nil), l.Payload...))
 }
@@ -268,7 +278,7 @@ func (l *LSXG) Sign() (*signedexchange.Exchange, error) {
 
 // ChainBytes serializes the certificate chain served at CertURL.
 func ChainBytes(leaf *fixtures.Leaf, ocsp []byte) []byte {
-	chain, err := certurl.NewCertChain([]*x509.Certificate{leaf.Cert(), fixtures.CA()}, ocsp, nil)
+	chain, err := certurl.NewCertChain([]*x509.Certificate{leaf.Cert(), leaf.Issuer()}, ocsp, nil)
 	if err != nil {
 		panic(err)
 	}
